@@ -168,6 +168,10 @@ func (v *verifNAT) op(f []string) (out string) {
 	case "adv":
 		v.shift(time.Duration(vh.Atoi(f[1])) * time.Millisecond)
 		out = "-"
+	case "ctr":
+		// white-box jump: as if f[1] allocations had already been made (and had expired)
+		v.n.udpPortCounter = vh.Atoi(f[1])
+		out = "-"
 	default:
 		out = "bad-op"
 	}
@@ -182,7 +186,7 @@ var (
 func verifNATGen(r *vh.Rng, o *vh.Out, id string, long bool) {
 	var cfg string
 	lifetime := 30500
-	steps := []int{0, 0, 1000, 15000, 29000, 30000, 31000, 61000, 500}
+	steps := []int{0, 0, 1000, 15000, 29000, 30000, 31000, 61000} // multiples of 1 s; lifetimes end in .5 s: no gap equals the lifetime
 	one := false
 	switch c := r.Intn(100); {
 	case c < 12:
@@ -206,7 +210,7 @@ func verifNATGen(r *vh.Rng, o *vh.Out, id string, long bool) {
 	default:
 		if r.Chance(25) {
 			lifetime = r.Pick(10500, 2500, 60500)
-			steps = []int{0, 1000, lifetime - 500, lifetime + 500, lifetime/2 + 250, 2 * lifetime}
+			steps = []int{0, 1000, lifetime - 500, lifetime + 500, 2 * lifetime, 2000}
 		}
 		if r.Chance(10) {
 			lifetime = 0 // default 30 s: steps are multiples of 7 s, never exactly 30 s in sum
@@ -231,6 +235,9 @@ func verifNATGen(r *vh.Rng, o *vh.Out, id string, long bool) {
 	}
 	var exts []string
 	n := 15 + r.Intn(65)
+	if !long && !one && r.Chance(6) {
+		do(fmt.Sprintf("ctr %d", 16384-r.Intn(12)))
+	}
 	if long {
 		// more allocations than there are ports in the dynamic range
 		for k := 0; k < 16390; k++ {
@@ -268,7 +275,7 @@ func verifNATGen(r *vh.Rng, o *vh.Out, id string, long bool) {
 func TestVerifNAT(t *testing.T) {
 	vh.RunShards(func(shard int, r *vh.Rng, o *vh.Out, n int) {
 		for i := 0; i < n; i++ {
-			long := shard == 0 && i == 0
+			long := shard == 0 && i == 0 && vh.Thorough()
 			verifNATGen(r, o, fmt.Sprintf("%d.%d", shard, i), long)
 		}
 	}, func(cs []vh.Case, o *vh.Out) {
